@@ -57,11 +57,31 @@ def gen(rng, tier):
         if rng.random() < 0.5:
             env = {"VR_SEED": rng.randrange(1, 1 << 30), "VR_SCHED": "rand", "VR_SWITCH": 2, "VR_BUDGET": 60000}
         cases.append({"args": [rng.choice([3, 4]), "|".join(fibers)], "env": env})
+    # crowds: 130-300 fibers wait on the condition variable at once; one broadcast (the sweeper's,
+    # or a script fiber's) must release every one of them
+    for nf in ([130, 260] if tier == "quick" else [129, 130, 257, 260, 300]):
+        fibers = ["w"] * nf + [rng.choice(["y,y,b", "y,B", "y,y,y,s,s,b"])]
+        cases.append({"args": [rng.choice([1, 2]), "|".join(fibers)], "timeout": 300,
+                      "env": {"VR_SEED": rng.randrange(1, 1 << 30), "VR_SCHED": "rand", "VR_SWITCH": 4, "VR_BUDGET": 12000000, "VR_MAXEV": 8000000}})
     return cases
+
+
+import os as _os
+import sys as _sys
+
+_sys.path.insert(0, _os.path.join(_os.path.dirname(_os.path.dirname(_os.path.abspath(__file__))), "extract"))
+import wake_extract  # noqa: E402
+
+
+def pre(repo):
+    """translator step (facts no trace shows): the manager's wake loops wait without bound for an
+    announced waiter and wake exactly the number asked for"""
+    wake_extract.check(repo)
 
 
 SPEC = {
     "C05": {
+        "pre": pre,
         "parts": [{"name": "cond", "harness": "cond", "model": "Cond", "runtime": True, "gen": gen,
                    "nontrivial": lambda s: s["hist"].get("xchg C.tail", 0) >= 1 and
                    (s["hist"].get("fsub C.count", 0) + s["hist"].get("xchg C.count", 0)) >= 1}],
